@@ -86,6 +86,27 @@ func checkC01(p *Prog, r *Report) {
 	c01Operators(p, r)
 	c01Widths(p, r)
 	c01PassThrough(p, r)
+	// clauses of C01 decided by the analyses of other properties
+	r.Rule("R01e", "early returns and loop control (decided by the C02 analysis R02e): return/break/continue are translated only where their control effect is available and the must-end-in-control-effect analysis is sound", 8)
+	r.Rule("R01f", "machine encoding and formatting primitives used by translated programs (decided by the C15/C16 analyses): little-endian Put/Get delegation, canonical decimal UInt64ToString", 5)
+	r.Rule("R01g", "any declaration order (decided by the C04 analysis R04c): the emission closure visits every recorded dependency before appending the dependant", 5)
+	share := func(prop string, run func(*Prog, *Report), from []string, to string) {
+		sr := NewReport(prop, p)
+		run(p, sr)
+		for _, o := range sr.Obls {
+			for _, f := range from {
+				if o.Rule == f {
+					o.Rule = to
+					r.Obls = append(r.Obls, o)
+					r.ruleIdx[to].Instances++
+				}
+			}
+		}
+	}
+	share("C02", func(p *Prog, sr *Report) { checkR02e(p, sr) }, []string{"R02e"}, "R01e")
+	share("C15", checkC15, []string{"R15"}, "R01f")
+	share("C16", checkC16, []string{"R16a"}, "R01f")
+	share("C04", func(p *Prog, sr *Report) { c04Order(p, sr) }, []string{"R04c"}, "R01g")
 	// R01d shared with C05
 	s5 := NewReport("C05", p)
 	s5.Rule("R05a", "", 0)
